@@ -48,6 +48,9 @@ checks = {
  "C06": dict(harness="hcore", design="§6 C06",
    text='Whole-core simulation of destroys in every state with every flag combination and of creations failing at template load, deployment and configuration, with DESTROY hook tasks; oracles: nothing of a vanished environment stays listed or owned, every task it owned was asked to terminate unless keep-tasks, no success while still listed, leftovers fall to the next cleanup.',
    note='simmesos/simconsul are models; RPC methods are invoked on the RpcServer object; one OS process per run; violations are confirmed by replay in a fresh process (tapes not shrunk).'),
+ "C17": dict(harness="hexec", design="§6 C17",
+   text="Seeded simulation of the real executor on a simulated operating system (process groups, signals, zombies) with scripted child processes and a simulated OCC device; the harness plays agent and core and sends LAUNCH / transitions / triggers / KILL at drawn instants under seeded schedules and a fake clock; oracles: at most one terminal status and nothing after it, killed-on-request is never FAILED, no process of the group alive 60 s after STOP/KILL, no panic (recovered and named by call site) and the event loop still serves a LAUNCH.",
+   note="simos and the device are models (semantics of kill/zombies/exec.Cmd checked against the real ones); DIRECT/BASIC/HOOK control modes; Run's HTTP subscription loop replaced by the harness."),
  "C18": dict(harness="hcore", design="§6 C18",
    text='Whole-core simulation with crash (incarnation frozen at a drawn decision; only simconsul and simmesos survive) and restart, or subscription drop and re-subscribe; oracles: same framework identity after restart, every surviving task of the previous life killed, no environment listed; reconciliation after a mere reconnection kills nothing owned and changes no state.',
    note='simmesos/simconsul are models; RPC methods are invoked on the RpcServer object; one OS process per run; violations are confirmed by replay in a fresh process (tapes not shrunk).'),
